@@ -29,12 +29,14 @@ CLAIMED = {
                   "taint of the raw buffer pointer; call-graph enumeration of throw sites",
         text="Decides: (R1) for all 54 concrete layer classes the bytes the serialiser gives the bounded cursor before/after "
              "the inner layer never exceed header_size()/trailer_size(), in every cell of the condition partition (option "
-             "kinds incl. all 256 IP option octets, message types, flags) - found and fixed the TCP and IP option-size "
-             "defects; (R2) cached option/tag sizes follow their lists under every add/remove; (R3) the raw output buffer "
-             "is written only at offsets the cursor already accepted; (R4) the driver composes the layers' regions; (R5) no "
+             "kinds incl. all 256 IP option octets, message types, flags), self-serialising value types write what their size() announces, and a layer that "
+             "writes fewer header bytes than it counts does not go on to place a trailer with the same cursor - found and "
+             "fixed the TCP and IP option-size defects; (R2) cached option/tag sizes follow their lists under every add/remove; (R3) the raw output buffer "
+             "is written only at offsets the cursor already accepted, and the symbolic raw writes of ICMP/ICMPv6 (extension "
+             "block and padding) lie inside the layer's trailer region on every cell - found and fixed the ICMP extension "
+             "offset for timestamp/address-mask messages; (R4) the driver composes the layers' regions; (R5) no "
              "throw site other than the cursor's bound checks and 8 tabled, reasoned ones is reachable while serialising.",
-        note="NOT decided: LLC's cached lengths (1 undecided instance), the exact placement of ICMP/ICMPv6 extension padding "
-             "(3 undecided R3 instances, bounded by trailer_size()), arbitrary building-API histories beyond R2, uint32 wrap "
+        note="NOT decided: LLC's cached lengths (1 undecided instance), arbitrary building-API histories beyond R2, uint32 wrap "
              "of sizes. 'Fewer bytes written than counted' is noted, not a violation (zero gap, no overwrite).",
     ),
     "C03": dict(
@@ -47,8 +49,8 @@ CLAIMED = {
              "lookup succeeded (found and fixed SNAP, SLL, IPSecAH); (R2) class->tag and tag->class tables are mutual "
              "inverses for every layer class and pdu_from_flag(PDUType) creates the class with that flag (47 rows); (R3) "
              "every derived from-buffer constructor skips exactly the bytes its base constructors consumed (20 chains) and "
-             "the members a constructor chain reads are, in order and width, those write_serialization writes (51 "
-             "classes); (R4) switches on wire-derived selectors on the serialisation path cover every value (found and "
+             "the members a constructor chain reads are, in order and width, those write_serialization writes, and a member "
+             "read under a condition is written whenever that condition holds (51 classes); (R4) switches on wire-derived selectors on the serialisation path cover every value (found and "
              "fixed LLC's I-frame format).",
         note="NOT decided: value-dependent losses (ICMP extension recognition by checksum, DHCP END/PAD growth, option "
              "contents and their order beyond the raw option list), byte-for-byte idempotence, variable-length tails after "
@@ -66,7 +68,8 @@ CLAIMED = {
              "same-name setter/getter pairs use one option code; (R3) add/remove keep cached sizes in step (= C02.R2); (R4) "
              "searches are first-match from begin() and remove erases exactly the found iterator; (R5) all PDUOption members "
              "use one inline/heap predicate; (R6) IPv6 extension headers announce exactly the bytes written (found and fixed "
-             "the 7-mod-8 length defect).",
+             "the 7-mod-8 length defect); (R7) element-parsing loops continue while one element's fixed part fits (17 loops); "
+             "(R8) a serialiser that edits list elements for the wire image restores them from a saved copy.",
         note="NOT decided: the shadow-model clause over arbitrary edit histories, codecs that use pointer arithmetic or "
              "containers instead of cursors (shape not comparable), variable-length tails, DNS names, ICMPv6 option length "
              "units for payloads the caller did not pad, value ranges.",
@@ -83,7 +86,9 @@ CLAIMED = {
              "and patched back, pseudo-header built from the parent's addresses, size() and this class's protocol number; "
              "(R2) no header field is assigned after its header went through the cursor unless patched back (35 "
              "serialisers); (R3) tags are looked up for the immediate inner layer and the IPv6 extension chain links header "
-             "i-1 to header i for every i >= 1; (R4) Ethernet/802.1Q padding is zero-filled after the payload.",
+             "i-1 to header i for every i >= 1, and a private mirror of a tag field that the serialiser falls back to is updated "
+             "by every setter of that field; (R4) Ethernet/802.1Q padding is zero-filled after the payload and header + "
+             "payload + trailer_size() >= 60 for EthernetII on every cell.",
         note="NOT decided: the one's-complement arithmetic and CRC32 themselves, the values of length / offset expressions "
              "(tot_len, doff, payload_length ...), the UDP zero-checksum substitution value, agreement with libpcap filters - "
              "value-level. Tag tables are decided under C03.R2.",
@@ -169,7 +174,7 @@ CLAIMED = {
         text="Structural part. Decides: (R1) every field setter's flag and encoded length, the getter's flag and decode "
              "width and the shared size/alignment table agree, and each settable field's table alignment is its natural "
              "alignment; (R2) writer and parser take size/alignment only from the table and align from the RadioTap header "
-             "start; (R3) it_len/FCS are derived at serialisation; (R4) an inserted field's present bit is always recorded; "
+             "start; (R3) it_len/FCS are derived at serialisation and the parser rejects a failed FCS only when an FCS is present; (R4) an inserted field's present bit is always recorded; "
              "(R5) one re-padding step leaves exactly the needed padding for all (existing, needed) pairs; (R6) "
              "`offset == offset0 + i + D` is an inductive invariant of update_paddings and every buffer edit addresses the "
              "padding run being fixed - the rule that found the order-dependent layout corruption (fixed, 9ffa2d0).",
@@ -260,7 +265,8 @@ CLAIMED = {
              "state (little-endian arm): (R1) getter(setter(o,v)) == v bit for bit; (R2) no value bit is dropped unless "
              "the parameter type or an explicit range check excludes it, and small_uint<n> really rejects values above "
              "2^n-1 (R0); (R3) the setter changes only the storage of its own field (plus two tabled derived members) "
-             "and every getter reading other bits keeps its value. Option-backed accessors (34) and non-scalar "
+             "and every getter reading other bits keeps its value; (R4) serialisers assign only the 32 tabled derived fields, "
+             "every other field keeps the value that was set. Option-backed accessors (34) and non-scalar "
              "parameters (100) are outside this property's scalar-field quantifier and are counted in the evidence.",
         note="NOT decided: that bit positions are those the protocol specification assigns; the serialisation-diff "
              "clause beyond 'only the field's own members change'; the big-endian #if arms. Trusted: clang's record "
